@@ -8,7 +8,8 @@ import symex
 
 META = {
     "level": "other",
-    "explanation": "Interleavings are not enumerated (the engine executes one thread). The solver discharges, on all paths of kernels with symbolic "
+    "explanation": "Schedules are not enumerated (the engine executes one thread; another thread's translation is placed at every lock "
+                   "acquisition of a create/destroy through the verif_at_lock interleaving hook). The solver discharges, on all paths of kernels with symbolic "
                    "inputs, the two facts from which freedom from interference follows for any number of threads if the lock primitives are correct: "
                    "(1) lock discipline - every read of rlbox's process-wide mutable state (sandbox_list and the buffer it owns) happens while "
                    "sandbox_list_lock is held shared or unique, every write while it is held unique, and no other non-thread-local rlbox global is "
